@@ -229,8 +229,21 @@ def replay(ctx, case):
 
 # ---- known-finding classes ---------------------------------------------------------------------------
 def _kf_selfproduct(case, clause, detail):  # pylint: disable=unused-argument
+    """A formula of the class (a `*` whose operands expand to the same >= 2 terms) whose model is exactly what the
+    recorded deviation — `M * M` returns M — gives; any other wrong expansion of such a formula is reported."""
     items = [(s, _tup(it)) for s, it in case["items"]]
-    return any(has_selfproduct(t) for t in item_trees(items))
+    if clause != "expansion" or not any(has_selfproduct(t) for t in item_trees(items)):
+        return False
+    try:
+        with core.Guard():
+            _, got_c, got_g = impl_model(case["formula"])
+    except Exception:  # pylint: disable=broad-except
+        return False
+    got = ra.canon_model(got_c, got_g)
+    with ra.self_product_shortcut():
+        dev_c, dev_g, _ = ra.rhs(items)
+        alt_c, alt_g = ra.rhs_ordered(items)
+    return got in (ra.canon_model(dev_c, dev_g), ra.canon_model(alt_c, alt_g))
 
 
 KNOWN_CLASSES = {"selfproduct": _kf_selfproduct}
